@@ -321,11 +321,11 @@ def applyPre : PreFn → V → Except ExcCls V
 def orderIdx (keys : List Nat) (n : Nat) : List Nat :=
   (((List.range n).map fun i => (keys.getD i 0, i)).mergeSort (fun a b => a.1 ≤ b.1)).map (·.2)
 
-inductive Pick | found (i : Nat) | nomatch | err (c : ExcCls)
+inductive Pick | found (i : Nat) | absent | err (c : ExcCls)
 
 /-- `for matcher in remaining_matchers: if matcher.match(value) is None: …; break` -/
 def pick (row : List Verdict) : List Nat → Pick
-  | [] => .nomatch
+  | [] => .absent
   | i :: is => match row.getD i .mismatch with
       | .match => .found i
       | .raised c => .err c
@@ -335,7 +335,7 @@ def greedy (rowOf : V → List Verdict) : List V → List Nat → List V → Exc
   | [], rem, nm => .ok (rem, nm)
   | x :: xs, rem, nm => match pick (rowOf x) rem with
       | .found i => greedy rowOf xs (rem.erase i) nm
-      | .nomatch => greedy rowOf xs rem (nm ++ [x])
+      | .absent => greedy rowOf xs rem (nm ++ [x])
       | .err c => .error c
 
 /-- the tail of `MatchesSetwise.match` once the loop is over -/
